@@ -27,6 +27,8 @@ func init() {
 	reg("C04", ruleSpellingErased)               // C04-22: the schema kept the spelling of a generic reference
 	reg("C13", ruleSymbolTableWritesScoped)      // C13-22: type parameters leaked into the shared table
 	reg("C08", ruleWriteIfNeeded)                // C08-22: a stale generated file next to regenerated ones
+	reg("C03", ruleStateMachine)                 // C03-24: an end-of-stream marker emitted in the middle of a stream
+	reg("C20", ruleCollectPackages)              // C20-23: an import cycle that is not detected wedges the watcher
 }
 
 // ---------------------------------------------------------------------------------------------------------------
@@ -1329,4 +1331,112 @@ func ruleVariablesShadowFields(c *core.Ctx) {
 	if n == 0 {
 		c.Undecided(rule, "anchor/name resolution", 0, "no *MemberAccessExpression case that searches both Variables and Fields found")
 	}
+}
+
+func init() {
+	reg("C19", rulePythonTestsPresenceByIdentity)
+	reg("C03", rulePythonTestsPresenceByIdentity)
+}
+
+// ---------------------------------------------------------------------------------------------------------------
+// ON1: the Python back end tests "has a value" with `is None` / `is not None`, never by truthiness. In Python 0, 0.0,
+// "", an empty list and an empty dict are falsy: an emitted `if x:` / `if not x:` takes a present optional holding such
+// a value for an absent one, where the C++ (`has_value()`) and MATLAB code take the other branch. PN3 is the same
+// clause for the Python runtime.
+// ---------------------------------------------------------------------------------------------------------------
+func rulePythonTestsPresenceByIdentity(c *core.Ctx) {
+	const rule = "ON1"
+	c.Rule(rule, "internal/python/*: no emitted template is a bare truthiness test of a formatted value (`if %s:`, `if not %s:`, `elif %s:`, `while %s:`); presence is tested with `is None` / `is not None`", 2)
+	bare := regexp.MustCompile(`(^|\n)\s*(if|elif|while)\s+(not\s+)?%(\[\d\])?[sv]\s*:\s*(\n|$)`)
+	ident := regexp.MustCompile(`\bis (not )?None\b`)
+	n := 0
+	for _, d := range c.AllDecls() {
+		p := c.DeclPkg(d)
+		if p == nil || d.Body == nil || c.IsTestFile(d.Pos()) || !strings.Contains(p.PkgPath, "/internal/python") {
+			continue
+		}
+		info := p.TypesInfo
+		ast.Inspect(d.Body, func(m ast.Node) bool {
+			ce, ok := m.(*ast.CallExpr)
+			if !ok {
+				return true
+			}
+			for ai, a := range ce.Args {
+				tv, ok := info.Types[a]
+				if !ok || tv.Value == nil || tv.Value.Kind() != constant.String {
+					continue
+				}
+				t := constant.StringVal(tv.Value)
+				if bare.MatchString(t) && ai+1 < len(ce.Args) && comparisonText(c, p.Types, info, ce.Args[ai+1], 0) {
+					// the formatted value is itself a comparison (`a is None`, `x == y`, isinstance(...)) built by a helper
+					n++
+					c.OK(rule, fmt.Sprintf("%s/%s", c.FuncName(d), strings.TrimSpace(firstWords(t, 4))), a.Pos(), "the formatted condition is a comparison")
+				} else if bare.MatchString(t) {
+					n++
+					c.Bad(rule, fmt.Sprintf("%s/%s", c.FuncName(d), strings.TrimSpace(firstWords(t, 4))), a.Pos(),
+						"the emitted `"+strings.TrimSpace(t)+"` tests the truthiness of a value: a present optional that holds 0, 0.0, \"\" or an empty container takes the branch for an absent one — Python then disagrees with C++ and MATLAB, which test has_value()")
+				} else if ident.MatchString(t) {
+					n++
+					c.OK(rule, fmt.Sprintf("%s/%s", c.FuncName(d), strings.TrimSpace(firstWords(t, 5))), a.Pos(), "presence tested by identity")
+				}
+			}
+			return true
+		})
+	}
+	if n == 0 {
+		c.Undecided(rule, "anchor/presence tests", 0, "no emitted presence test found in the Python back end")
+	}
+}
+
+// comparisonText: the string expression e always contains a Python comparison (` is `, `==`, `!=`, `<`, `>`, ` in `,
+// isinstance(): a constant, a concatenation or Sprintf with such a constant piece, or a call of a package function all of
+// whose returns are such.
+func comparisonText(c *core.Ctx, pkg *types.Package, info *types.Info, e ast.Expr, depth int) bool {
+	has := func(s string) bool {
+		for _, k := range []string{" is ", "==", "!=", "<", ">", " in ", "isinstance(", " and ", " or "} {
+			if strings.Contains(s, k) {
+				return true
+			}
+		}
+		return false
+	}
+	e = ast.Unparen(e)
+	if tv, ok := info.Types[e]; ok && tv.Value != nil && tv.Value.Kind() == constant.String {
+		return has(constant.StringVal(tv.Value))
+	}
+	switch x := e.(type) {
+	case *ast.BinaryExpr:
+		if x.Op == token.ADD {
+			return comparisonText(c, pkg, info, x.X, depth) || comparisonText(c, pkg, info, x.Y, depth)
+		}
+	case *ast.CallExpr:
+		fn, _ := typeutil.Callee(info, x).(*types.Func)
+		if fn == nil {
+			return false
+		}
+		if fn.Pkg() != nil && fn.Pkg().Path() == "fmt" && fn.Name() == "Sprintf" && len(x.Args) > 0 {
+			return comparisonText(c, pkg, info, x.Args[0], depth)
+		}
+		if fn.Pkg() == pkg && depth < 2 {
+			hd := c.Decl(fn)
+			if hd == nil || hd.Body == nil {
+				return false
+			}
+			all, any := true, false
+			ast.Inspect(hd.Body, func(k ast.Node) bool {
+				if _, ok := k.(*ast.FuncLit); ok {
+					return false
+				}
+				if r, ok := k.(*ast.ReturnStmt); ok && len(r.Results) == 1 {
+					any = true
+					if !comparisonText(c, pkg, c.DeclPkg(hd).TypesInfo, r.Results[0], depth+1) {
+						all = false
+					}
+				}
+				return true
+			})
+			return any && all
+		}
+	}
+	return false
 }
